@@ -33,6 +33,8 @@ def view_positions(L, ops):
         if op[0] == "rc":
             idx = idx[::-1]
             rev = not rev
+        elif op[0] == "copy":
+            pass            # seq.copy(): same residues, same absolute coordinates
         else:
             _, a, b, c = op
             idx = idx[a:b:c]
@@ -98,7 +100,8 @@ def exhaustive_block(tier):
                   for p in (True, False)]
             if tier == "quick":
                 qs = qs[::3]
-            cases.append(mk_case(impl, parent, 0, feats, ops, qs, block="windows"))
+            for i in range(0, len(qs), 24):
+                cases.append(mk_case(impl, parent, 0, feats, ops, qs[i:i + 24], block="windows"))
     # add_feature through every single-slice / rc view
     L = 4
     parent = BASE[1:1 + L]
@@ -140,9 +143,12 @@ def random_case(rng, strided=False):
     ops = []
     idx = list(range(L))
     for _ in range(rng.choice([0, 1, 1, 2, 2, 3, 4])):
-        if rng.random() < 0.35:
+        r0 = rng.random()
+        if r0 < 0.3:
             ops.append(["rc"])
             idx = idx[::-1]
+        elif r0 < 0.4 and not strided:
+            ops.append(["copy"])
         else:
             n = len(idx)
             a = rng.randint(0, max(0, n - 1))
@@ -172,7 +178,7 @@ def random_case(rng, strided=False):
             return rng.randint(-n, -1)
         qs.append([bound(), bound(), rng.random() < 0.6])
     add = None
-    if rng.random() < 0.25 and not strided:
+    if rng.random() < 0.25 and not strided and ["copy"] not in ops:
         k = rng.choice([1, 1, 2])
         pts = sorted(rng.sample(range(n + 1), min(2 * k, (n + 1) // 2 * 2)))
         if len(pts) >= 2:
@@ -204,8 +210,10 @@ def pairs(ps):
 
 def coq_op(op):
     if op[0] == "rc":
-        return "VRc"
-    return f"VSlice {oz(op[1])} {oz(op[2])} {oz(op[3])}"
+        return "HOp VRc"
+    if op[0] == "copy":
+        return "HCopy"
+    return f"HOp (VSlice {oz(op[1])} {oz(op[2])} {oz(op[3])})"
 
 
 PINNED = (False, False, False)
@@ -265,7 +273,7 @@ def norm_impl_item(x):
 
 def is_contiguous(c, idx):
     """the view displays a contiguous parent segment (no slice of the history had a stride)"""
-    return all(op[0] == "rc" or op[3] in (None, 1) for op in c["ops"]) or len(idx) == len(c["parent"])
+    return all(op[0] in ("rc", "copy") or op[3] in (None, 1) for op in c["ops"]) or len(idx) == len(c["parent"])
 
 
 def oracle_feature(c, idx, rev, k, spans, minus):
@@ -461,6 +469,109 @@ def compare_case(rep, c, impl, model, stats, pending):
         one_query(list(range(L)), False, [None, None, True], i_root, m_root, "root")
 
 
+# ------------------------------------------------------------------ alignments (oracle comparison only)
+
+def aln_case(rng):
+    ncol = rng.randint(3, 12)
+    names = ["s1", "s2", "s3"][:rng.randint(2, 3)]
+    rows = {}
+    for nm in names:
+        r = ""
+        while not r.replace("-", ""):
+            r = "".join(rng.choice("ACGT") if rng.random() < 0.7 else "-" for _ in range(ncol))
+        rows[nm] = r
+    feats = []
+    for _ in range(rng.randint(1, 3)):
+        sid = rng.choice(names)
+        L = len(rows[sid].replace("-", ""))
+        nsp = rng.randint(1, min(3, (L + 1) // 2))
+        pts = sorted(rng.sample(range(L + 1), 2 * nsp))
+        feats.append([sid, [[pts[2 * i], pts[2 * i + 1]] for i in range(nsp)], rng.random() < 0.4])
+    ops = []
+    cols = list(range(ncol))
+    for _ in range(rng.choice([0, 0, 1, 1, 2, 3])):
+        if rng.random() < 0.3:
+            ops.append(["rc"])
+            cols = cols[::-1]
+        else:
+            n = len(cols)
+            a = rng.randint(0, n - 1)
+            b = rng.randint(a + 1, n)
+            ops.append(["s", a, b])
+            cols = cols[a:b]
+    return dict(kind="aln", impl="old", rows=rows, feats=feats, ops=ops, block="alignment")
+
+
+def aln_oracle(c):
+    """per feature: the alignment columns holding the feature's residues, restricted to the columns
+    the alignment view displays, read on the feature's strand; projected onto another row = that
+    row's residues in those columns"""
+    rows = c["rows"]
+    ncol = len(next(iter(rows.values())))
+    cols = list(range(ncol))
+    rev = False
+    for op in c["ops"]:
+        if op[0] == "rc":
+            cols = cols[::-1]
+            rev = not rev
+        else:
+            cols = cols[op[1]:op[2]]
+    cset = set(cols)
+    out = []
+    for sid, spans, minus in c["feats"]:
+        colof = [k for k, ch in enumerate(rows[sid]) if ch != "-"]
+        keep = [colof[i] for a, b in spans for i in range(a, b) if colof[i] in cset]
+        sl = {nm: "".join(rows[nm][k] for k in keep) for nm in rows}
+        if minus:
+            sl = {nm: rcs(v) for nm, v in sl.items()}
+        disp = [i for i, k in enumerate(colof) if k in cset]   # residues of the row the view displays
+        present = bool(disp) and spans[0][0] < max(disp) + 1 and min(disp) < spans[-1][1]
+        lo = min(disp) if disp else None
+        out.append(dict(present=present, row_empty=not disp, slice=sl, minus=(minus != rev), retained=len(keep),
+                        abuts=(lo is not None and any(b == lo for a, b in spans)),
+                        proj={nm: v.replace("-", "") for nm, v in sl.items() if nm != sid}))
+    return out, rev
+
+
+def evaluate_aln(rep, cases, stats):
+    impl = core.run_impl_sharded("c04_impl.py", cases)
+    for c, ir in zip(cases, impl):
+        exp, rev = aln_oracle(c)
+        if isinstance(ir, dict):
+            stats["violations"] += 1
+            rep.violation(f"aln:case-raised:E{ir.get('exc')}", dict(case=c, observed_impl=ir, broken="alignment case raised"))
+            continue
+        for k, (g, e, f) in enumerate(zip(ir, exp, c["feats"])):
+            stats["evaluations"] += 1
+            small = dict(c, feats=[f])
+            key = None
+            if isinstance(g, dict) and "exc" in g:
+                key = ("aln:query:raised:row-without-residues" if e["row_empty"] else f"aln:query:raised:E{g['exc']}:" + (
+                       "span-ends-at-view-start" if e["abuts"] else "other"))
+            elif (g is not None) != e["present"]:
+                key = f"aln:member:{'extra' if g is not None else 'missing'}"
+            elif g is not None:
+                if g["minus"] != e["minus"]:
+                    key = "aln:strand"
+                elif isinstance(g["slice"], dict) and "exc" in g["slice"]:
+                    key = f"aln:slice:raised:E{g['slice']['exc']}"
+                elif g["slice"] != e["slice"]:
+                    key = f"aln:slice:{'rc' if rev else 'fwd'}:{'-' if f[2] else '+'}"
+                elif e["retained"]:
+                    for nm, v in g["proj"].items():
+                        if isinstance(v, dict):
+                            key = f"aln:projected:raised:E{v['exc']}"
+                        elif v != e["proj"][nm]:
+                            key = f"aln:projected:{'rc' if rev else 'fwd'}:{'-' if f[2] else '+'}"
+                    if key is None:
+                        stats["nontrivial"].add(json.dumps([c["rows"], c["ops"], f]))
+            if key:
+                stats["violations"] += 1
+                rep.violation(key, dict(case=small, expected_by_spec=e, observed_impl=g,
+                                        broken="alignment-level feature does not denote the columns holding the "
+                                               "feature's residues (Model: none; position-set oracle)"))
+
+
 # ------------------------------------------------------------------ the check
 
 def build_cases(tier, seed):
@@ -478,6 +589,29 @@ def build_cases(tier, seed):
         if c:
             cases.append(c)
     return cases
+
+
+def case_weight(c):
+    return max(1, len(c["feats"]) + (1 if c["add"] else 0)) * max(1, len(c["queries"])) + 5
+
+
+def run_impl_balanced(cases):
+    """the implementation on all cases, spread over NPROC interpreters by estimated work"""
+    import concurrent.futures as cf
+
+    n = max(1, min(core.NPROC, len(cases) // 20))
+    bins = [[] for _ in range(n)]
+    load = [0] * n
+    for k in sorted(range(len(cases)), key=lambda k: -case_weight(cases[k])):
+        b = load.index(min(load))
+        bins[b].append(k)
+        load[b] += case_weight(cases[k])
+    out = [None] * len(cases)
+    with cf.ThreadPoolExecutor(max_workers=n) as ex:
+        for ks, res in zip(bins, ex.map(lambda ks: core.run_impl_lines("c04_impl.py", [cases[k] for k in ks]), bins)):
+            for k, r in zip(ks, res):
+                out[k] = r
+    return out
 
 
 def detect_fixes(impl_corpus):
@@ -509,7 +643,7 @@ def evaluate(rep, cases, pr_broken=False):
     import concurrent.futures as cf
 
     with cf.ThreadPoolExecutor(max_workers=2) as ex:
-        f_impl = ex.submit(core.run_impl_sharded, "c04_impl.py", cases[ncorp:])
+        f_impl = ex.submit(run_impl_balanced, cases[ncorp:])
         f_model = ex.submit(run_model, cases, primary)
         impl = impl_corpus + f_impl.result()
         model = None
@@ -564,7 +698,10 @@ def run(tier: str, seed: int) -> int:
         "correspondence and the oracle only"]
     cases = build_cases(tier, seed)
     stats, dis, impl = evaluate(rep, cases, bool(pr["problems"]))
-    dist = {}
+    rng_a = random.Random(seed * 7907 + 41)
+    aln_cases = [aln_case(rng_a) for _ in range(300 if tier == "quick" else 6000)]
+    evaluate_aln(rep, aln_cases, stats)
+    dist = {"alignment": len(aln_cases)}
     for c in cases:
         dist[c["block"]] = dist.get(c["block"], 0) + 1
     sample = next(c for c in cases if c["block"] == "random")
@@ -599,6 +736,14 @@ def replay(path: str) -> int:
     hits = []
     rep.violation = lambda key, r, no_input=False: hits.append((key, r.get("expected_by_spec")))
     stats = dict(evaluations=0, violations=0, nontrivial=set())
+    if c.get("kind") == "aln":
+        core.run_impl_sharded = lambda script, cases, *a, **k: [impl]
+        evaluate_aln(rep, [c], stats)
+        for k, e in hits:
+            print("oracle:", k, json.dumps(e))
+        same = [k for k, _ in hits if k == d.get("key")]
+        print("REPRODUCED" if same or hits else "not reproduced")
+        return 1 if hits else 0
     try:
         model = run_model([c])[0]
     except core.CheckError:
